@@ -1,0 +1,67 @@
+//go:build verif
+
+// Machine-checked contracts for package schema (comment-only; compiled only
+// with -tags verif, and even then it adds no code). Checked by /verif/bin/govc.
+
+package schema
+
+//@ spec wf(l *lexer) bool = l != nil && 0 <= l.start && l.start <= l.pos && l.pos <= len(l.input) && 0 <= l.width && l.width <= 4 && l.items != nil
+//@ spec canBackup(l *lexer) bool = l.start <= l.pos - l.width
+
+//@ func (*lexer).next
+//@   props C12
+//@   requires wf(l)
+//@   modifies l.pos, l.width
+//@   ensures wf(l)
+//@   ensures l.pos == old(l.pos) + l.width
+//@   ensures (l.width == 0) <==> (r == eof)
+//@   ensures r == eof <==> old(l.pos) >= len(l.input)
+//@   ensures r >= -1
+//@   ensures canBackup(l)
+
+//@ func (*lexer).backup
+//@   props C12
+//@   requires wf(l) && canBackup(l)
+//@   modifies l.pos
+//@   ensures wf(l)
+//@   ensures l.pos == old(l.pos) - l.width
+
+//@ func (*lexer).peek
+//@   props C12
+//@   requires wf(l)
+//@   modifies l.pos, l.width
+//@   ensures wf(l)
+//@   ensures l.pos == old(l.pos)
+//@   ensures result == eof <==> l.pos >= len(l.input)
+//@   ensures result >= -1
+
+//@ func (*lexer).emit
+//@   props C12
+//@   requires wf(l)
+//@   modifies l.start, chanstate(l.items)
+//@   ensures wf(l)
+//@   ensures l.start == l.pos
+//@   ensures sent(l.items) == old(sent(l.items)) + 1
+
+//@ func (*lexer).ignore
+//@   props C12
+//@   requires wf(l)
+//@   modifies l.start
+//@   ensures wf(l) && l.start == l.pos
+
+//@ func (*lexer).accept
+//@   props C12
+//@   requires wf(l)
+//@   modifies l.pos, l.width
+//@   ensures wf(l)
+//@   ensures result ==> l.pos > old(l.pos)
+//@   ensures !result ==> l.pos == old(l.pos)
+
+//@ func (*lexer).acceptRun
+//@   props C12
+//@   requires wf(l)
+//@   modifies l.pos, l.width
+//@   ensures wf(l)
+//@   ensures l.pos >= old(l.pos)
+//@   loop 1 invariant wf(l) && l.pos >= old(l.pos)
+//@   loop 1 decreases len(l.input) - l.pos
